@@ -1,3 +1,4 @@
+import NanoVerif.Gen.ProgramDone
 /-
   C04 — model of libnano's primal-dual interior-point solver for linear / quadratic programs
   (core Lean only; generic over the scalar: run at `Float` by `driver_c04`, proved over an ordered field in
@@ -7,15 +8,15 @@
     src/program/solver.cpp:25-39     ::make_smax                                   -> `makeSmax`
     src/program/solver.cpp:41-47     ::normalize(A, b, min_norm)                   -> `normalizePair`
     src/program/solver.cpp:70-98     program_t::program_t (three normalisations)   -> `normalizeObj/Eq/Ineq`, `normalize`
-    src/program/solver.cpp:106-115   program_t::feasible                           -> `feasible`
+    src/program/solver.cpp:106-115   program_t::feasible                           -> `feasible`   (GENERATED: Gen/ProgramDone.lean)
     src/program/solver.cpp:149-188   program_t::update                             -> `objective`, `gradObj`, `update`
     src/program/state.cpp:18-21      solver_state_t::residual                      -> `residual`
     src/program/solver.cpp:243-282   solve_with_inequality, start                  -> `start`
     src/program/solver.cpp:311-329   backtracking stage 1                          -> `stage1`
-    src/program/solver.cpp:331-355   backtracking stage 2 (+ the revert)           -> `stage2`, `stage2Fail`
+    src/program/solver.cpp:331-352   backtracking stage 2 (+ the revert)           -> `stage2`, `stage2Fail`
     src/program/solver.cpp:357-385   state update, stopping criteria               -> `iterate`
     src/program/solver.cpp:390-418   solve_without_inequality                      -> `noineq`
-    src/program/solver.cpp:420-438   solver_t::done                                -> `doneStatus`, `done`
+    src/program/solver.cpp:420-438   solver_t::done                                -> `doneStatus` (GENERATED: Gen/ProgramDone.lean), `done`
 
   Vectors are lists, matrices lists of rows; an LP has `Q = []` (`matrix_t{}` in the C++ code).
 
@@ -30,123 +31,9 @@
 -/
 namespace NanoVerif.Program
 
-class Sqrt (α : Type) where
-  sqrt : α → α
-
-instance : Sqrt Float := ⟨Float.sqrt⟩
-
-class FinTest (α : Type) where
-  isFin : α → Bool
-
-instance : FinTest Float := ⟨Float.isFinite⟩
-
-/-- `enum class solver_status` (include/nano/solver/status.h), same order -/
-inductive Status where
-  | maxIters | converged | failed | unfeasible | unbounded
-deriving DecidableEq, Repr
-
-def Status.code : Status → Nat
-  | .maxIters => 0 | .converged => 1 | .failed => 2 | .unfeasible => 3 | .unbounded => 4
-
-/-- the program `min 1/2 x.Qx + c.x  s.t.  Ax = b, Gx <= h` (`program_t::m_Q … m_h`) -/
-structure Prog (α : Type) where
-  Q : List (List α)
-  c : List α
-  A : List (List α)
-  b : List α
-  G : List (List α)
-  h : List α
-
-def Prog.n {α} (P : Prog α) : Nat := P.c.length
-def Prog.p {α} (P : Prog α) : Nat := P.A.length
-def Prog.m {α} (P : Prog α) : Nat := P.G.length
-
-/-- the parameters of `solver_t` and the constants of the code (`min_norm = 1e-3`, `epsilon2<scalar_t>()`,
-    `numeric_limits<scalar_t>::max()`) -/
-structure Params (α : Type) where
-  minNorm : α
-  eps2 : α
-  big : α
-  s0 : α
-  miu : α
-  alpha : α
-  beta : α
-  epsilon : α
-  epsilon0 : α
-  maxIters : Nat
-  maxLs : Nat
-
-/-- the derived part of `solver_state_t`: `m_fx, m_eta, m_rdual, m_rprim, m_rcent` -/
-structure St (α : Type) where
-  fx : α
-  eta : α
-  rdual : List α
-  rprim : List α
-  rcent : List α
-
 section
 variable {α : Type} [Add α] [Sub α] [Mul α] [Div α] [Neg α] [LT α] [LE α] [DecidableLT α] [DecidableLE α]
   [OfNat α 0] [OfNat α 1] [OfNat α 2] [NatCast α]
-
-/-- `std::max(a, b)` = `(a < b) ? b : a` -/
-def cmax (a b : α) : α := if a < b then b else a
-
-/-- `std::min(a, b)` = `(b < a) ? b : a` -/
-def cmin (a b : α) : α := if b < a then b else a
-
-/-- `std::max({a, b, c})` (`max_element`: the first largest) -/
-def cmax3 (a b c : α) : α := cmax (cmax a b) c
-
-/-! ### vectors and matrices -/
-
-def dot : List α → List α → α
-  | a :: as, b :: bs => a * b + dot as bs
-  | _, _ => 0
-
-/-- `A * x` -/
-def mv (A : List (List α)) (x : List α) : List α := A.map (fun r => dot r x)
-
-def vadd (x y : List α) : List α := List.zipWith (· + ·) x y
-def vsub (x y : List α) : List α := List.zipWith (· - ·) x y
-def smul (s : α) (x : List α) : List α := x.map (fun a => s * a)
-def vdivs (x : List α) (d : α) : List α := x.map (fun a => a / d)
-def vneg (x : List α) : List α := x.map (fun a => -a)
-def zeros (n : Nat) : List α := List.replicate n 0
-
-/-- `c * x + y` -/
-def axpy (c : α) : List α → List α → List α
-  | a :: as, b :: bs => (c * a + b) :: axpy c as bs
-  | _, _ => []
-
-/-- `A.transpose() * u` = Σᵢ uᵢ · rowᵢ (vectors of length `n`) -/
-def tmv (n : Nat) : List (List α) → List α → List α
-  | r :: A, u :: us => axpy u r (tmv n A us)
-  | _, _ => zeros n
-
-/-- `x + s * d` -/
-def move (x : List α) (s : α) (d : List α) : List α := vadd x (smul s d)
-
-def sumsq (x : List α) : α := dot x x
-
-/-- squared Frobenius norm (`lpNorm<2>` of a tensor is the 2-norm of the flattened array) -/
-def sumsqM : List (List α) → α
-  | [] => 0
-  | r :: A => sumsq r + sumsqM A
-
-def norm2 [Sqrt α] (x : List α) : α := Sqrt.sqrt (sumsq x)
-def normF [Sqrt α] (A : List (List α)) : α := Sqrt.sqrt (sumsqM A)
-
-/-- `maxCoeff()`; `none` for an empty vector (the C++ code never asks: `m > 0` on the inequality path, guarded in
-    `feasible`) -/
-def maxCoeff : List α → Option α
-  | [] => none
-  | a :: as => some (as.foldl cmax a)
-
-/-- `v.maxCoeff() < c` -/
-def maxLt (v : List α) (c : α) : Bool :=
-  match maxCoeff v with
-  | none => true
-  | some m => decide (m < c)
 
 /-! ### normalisation (solver.cpp:41-47, 77-85) -/
 
@@ -174,9 +61,6 @@ def objective (P : Prog α) (x : List α) : α :=
 /-- `c` for an LP, `Q * x + c` otherwise -/
 def gradObj (P : Prog α) (x : List α) : List α :=
   if P.Q.isEmpty then P.c else vadd (mv P.Q x) P.c
-
-/-- `G * x - h` -/
-def slack (P : Prog α) (x : List α) : List α := vsub (mv P.G x) P.h
 
 /-- `program_t::update(x, u, v, miu, state)`: the fields that the `if (m > 0)` / `if (p > 0)` guards skip keep
     their previous value -/
@@ -223,20 +107,13 @@ def stage2 [Sqrt α] (P : Prog α) (mufx miu alpha beta : α) (x u v dx du dv : 
     if residual st' ≤ (1 - alpha * s) * r0 then (some s, st')
     else stage2 P mufx miu alpha beta x u v dx du dv r0 k (s * beta) st'
 
-/-- `if (state.residual() > r0) program.update(x, u, v, miu, state)` after a failed stage 2 -/
-def stage2Fail [Sqrt α] (P : Prog α) (mufx miu : α) (x u v : List α) (r0 : α) (st : St α) : St α :=
-  if r0 < residual st then update P mufx miu x u v st else st
+/-- `program.update(x, u, v, miu, state)` after a failed stage 2: the state is reverted to that of `(x, u, v)`, so that
+    `done` decides on — and the caller receives — the objective and the residuals of the returned point -/
+def stage2Fail (P : Prog α) (mufx miu : α) (x u v : List α) (st : St α) : St α :=
+  update P mufx miu x u v st
 
-/-! ### the status decision -/
-
-/-- `program_t::feasible` -/
-def feasible [Sqrt α] (P : Prog α) (eps2 : α) (x : List α) : Bool :=
-  (P.A.isEmpty || decide (norm2 (vsub (mv P.A x) P.b) < eps2)) && (P.G.isEmpty || maxLt (slack P x) eps2)
-
-/-- the `if` of `solver_t::done` -/
-def doneStatus (feas : Bool) (eta rd rp epsilon : α) : Status :=
-  if feas && decide (cmax3 eta rd rp < epsilon) then .converged
-  else if feas then .unbounded else .unfeasible
+/- `feasible` (`program_t::feasible`) and `doneStatus` (the `if` of `solver_t::done`) are the definitions of
+   `Gen/ProgramDone.lean`, re-translated from the C++ source on every check. -/
 
 /-- `solver_t::done(program, state, epsilon)` -/
 def done [Sqrt α] (P : Prog α) (par : Params α) (x : List α) (st : St α) : Status :=
@@ -250,9 +127,7 @@ inductive Outcome (α : Type) where
   | next (x u v : List α) (st : St α)
   | stop (status : Status) (x u v : List α) (st : St α)
 
-/-- loop body (solver.cpp:286-385). `stepOk = false`: the linear system was found unstable (oracle).
-    NB (as in the code): when stage 2 fails without the revert, the status is decided on — and the caller gets — the
-    residuals, `eta` and `fx` of the last trial point, while `x, u, v` are those of the iteration's start. -/
+/-- loop body (solver.cpp:286-385). `stepOk = false`: the linear system was found unstable (oracle). -/
 def iterate [Sqrt α] [FinTest α] (P : Prog α) (mufx : α) (par : Params α) (x u v : List α) (st : St α)
     (stepOk : Bool) (dx du dv : List α) : Outcome α :=
   if !stepOk then .stop (done P par x st) x u v st
@@ -263,7 +138,7 @@ def iterate [Sqrt α] [FinTest α] (P : Prog α) (mufx : α) (par : Params α) (
       let r0 := residual st
       match stage2 P mufx par.miu par.alpha par.beta x u v dx du dv r0 par.maxLs s1 st with
       | (none, stT) =>
-        let st' := stage2Fail P mufx par.miu x u v r0 stT
+        let st' := stage2Fail P mufx par.miu x u v stT
         .stop (done P par x st') x u v st'
       | (some s2, st2) =>
         let x' := move x s2 dx
